@@ -189,6 +189,56 @@ func (e *Exec) closeAllHandlesIf(all bool) {
 	}
 }
 
+// closeEverythingRandomOrder closes the open handles, the collection and the
+// store (collection before store) in a drawn order; after the collection and
+// after the store has been closed every handle that is still open must go on
+// showing its frozen content (C02, C15: "even after collection close or store
+// close", "in every close order").
+func (e *Exec) closeEverythingRandomOrder() {
+	phase := 0
+	if !e.collOpen {
+		phase = 1
+	}
+	for {
+		var open []int
+		for i, h := range e.handles {
+			if !h.closed {
+				open = append(open, i)
+			}
+		}
+		n := len(open)
+		if phase < 2 {
+			n++
+		}
+		if n == 0 {
+			return
+		}
+		k := simrt.Choose(n, "close-order")
+		if k < len(open) {
+			e.snapClose(open[k])
+			continue
+		}
+		phase++
+		what := "collection"
+		if phase == 1 {
+			e.closeColl()
+		} else {
+			e.closeStore()
+			what = "store"
+		}
+		simrt.Quiesce(20000, 2)
+		if e.viol != nil {
+			panic(abortRun{})
+		}
+		for i, h := range e.handles {
+			if !h.closed {
+				e.snapVerify(i)
+				e.probe("handle-verified-after-" + what + "-close")
+			}
+		}
+	}
+}
+
 func (e *Exec) closeHandlesRandomOrder() {
 	var open []int
 	for i, h := range e.handles {
